@@ -58,10 +58,10 @@ type EmbeddedPtr struct {
 }
 
 type Nested struct {
-	In  Inner
-	P   *Inner
-	C   CustomNamed
-	Z   int32
+	In Inner
+	P  *Inner
+	C  CustomNamed
+	Z  int32
 }
 
 type Ptrs struct {
@@ -73,48 +73,156 @@ type Ptrs struct {
 
 // ---- one struct per slice element kind ----
 
-type SlBool struct{ L []bool; End int32 }
-type SlI8 struct{ L []int8; End int32 }
-type SlI16 struct{ L []int16; End int32 }
-type SlI32 struct{ L []int32; End int32 }
-type SlI struct{ L []int; End int32 }
-type SlI64 struct{ L []int64; End int32 }
-type SlU16 struct{ L []uint16; End int32 }
-type SlU32 struct{ L []uint32; End int32 }
-type SlU struct{ L []uint; End int32 }
-type SlU64 struct{ L []uint64; End int32 }
-type SlF32 struct{ L []float32; End int32 }
-type SlF64 struct{ L []float64; End int32 }
-type SlStr struct{ L []string; End int32 }
-type SlBin struct{ L [][]byte; End int32 }
-type SlTime struct{ L []time.Time; End int32 }
-type SlInner struct{ L []Inner; End int32 }
-type SlPInner struct{ L []*Inner; End int32 }
-type SlCustom struct{ L []CustomNamed; End int32 }
-type SlSlI32 struct{ L [][]int32; End int32 }
-type SlSlInner struct{ L [][]Inner; End int32 }
-type SlMap struct{ L []map[string]int32; End int32 }
-type SlAny struct{ L []interface{}; End int32 }
+type SlBool struct {
+	L   []bool
+	End int32
+}
+type SlI8 struct {
+	L   []int8
+	End int32
+}
+type SlI16 struct {
+	L   []int16
+	End int32
+}
+type SlI32 struct {
+	L   []int32
+	End int32
+}
+type SlI struct {
+	L   []int
+	End int32
+}
+type SlI64 struct {
+	L   []int64
+	End int32
+}
+type SlU16 struct {
+	L   []uint16
+	End int32
+}
+type SlU32 struct {
+	L   []uint32
+	End int32
+}
+type SlU struct {
+	L   []uint
+	End int32
+}
+type SlU64 struct {
+	L   []uint64
+	End int32
+}
+type SlF32 struct {
+	L   []float32
+	End int32
+}
+type SlF64 struct {
+	L   []float64
+	End int32
+}
+type SlStr struct {
+	L   []string
+	End int32
+}
+type SlBin struct {
+	L   [][]byte
+	End int32
+}
+type SlTime struct {
+	L   []time.Time
+	End int32
+}
+type SlInner struct {
+	L   []Inner
+	End int32
+}
+type SlPInner struct {
+	L   []*Inner
+	End int32
+}
+type SlCustom struct {
+	L   []CustomNamed
+	End int32
+}
+type SlSlI32 struct {
+	L   [][]int32
+	End int32
+}
+type SlSlInner struct {
+	L   [][]Inner
+	End int32
+}
+type SlMap struct {
+	L   []map[string]int32
+	End int32
+}
+type SlAny struct {
+	L   []interface{}
+	End int32
+}
 
 // ---- one struct per map shape ----
 
-type MpStrI32 struct{ M map[string]int32; End int32 }
-type MpStrI struct{ M map[string]int; End int32 }
-type MpStrI64 struct{ M map[string]int64; End int32 }
-type MpStrF64 struct{ M map[string]float64; End int32 }
-type MpStrBool struct{ M map[string]bool; End int32 }
-type MpStrStr struct{ M map[string]string; End int32 }
-type MpStrInner struct{ M map[string]Inner; End int32 }
-type MpStrPInner struct{ M map[string]*Inner; End int32 }
-type MpStrSl struct{ M map[string][]string; End int32 }
-type MpStrMp struct{ M map[string]map[string]int32; End int32 }
-type MpI32Str struct{ M map[int32]string; End int32 }
-type MpI64Str struct{ M map[int64]string; End int32 }
-type MpAny struct{ M map[interface{}]interface{}; End int32 }
+type MpStrI32 struct {
+	M   map[string]int32
+	End int32
+}
+type MpStrI struct {
+	M   map[string]int
+	End int32
+}
+type MpStrI64 struct {
+	M   map[string]int64
+	End int32
+}
+type MpStrF64 struct {
+	M   map[string]float64
+	End int32
+}
+type MpStrBool struct {
+	M   map[string]bool
+	End int32
+}
+type MpStrStr struct {
+	M   map[string]string
+	End int32
+}
+type MpStrInner struct {
+	M   map[string]Inner
+	End int32
+}
+type MpStrPInner struct {
+	M   map[string]*Inner
+	End int32
+}
+type MpStrSl struct {
+	M   map[string][]string
+	End int32
+}
+type MpStrMp struct {
+	M   map[string]map[string]int32
+	End int32
+}
+type MpI32Str struct {
+	M   map[int32]string
+	End int32
+}
+type MpI64Str struct {
+	M   map[int64]string
+	End int32
+}
+type MpAny struct {
+	M   map[interface{}]interface{}
+	End int32
+}
 
 type NamedMap map[string]string
 
-type MpNamed struct{ M NamedMap; End int32 }
+type MpNamed struct {
+	M   NamedMap
+	End int32
+}
 
 // ---- many classes ----
 
